@@ -75,7 +75,21 @@ impl<F: TryFuture> Future for TryJoinAll<F> {
                 Poll::Ready(Some((i, Ok(t)))) => {
                     self.output[i].write(t);
                 }
-                Poll::Ready(Some((_, Err(e)))) => {
+                Poll::Ready(Some((i, Err(e)))) => {
+                    // The error is the final result: drop the outputs collected so far and
+                    // cancel the remaining futures, so that a later poll can never observe
+                    // the output buffer with the failed slot left uninitialised.
+                    let this = &mut *self;
+                    for (j, out) in this.output.iter_mut().enumerate() {
+                        if j != i && this.queue.tasks.get(j).is_none() {
+                            // SAFETY: slot `j` is vacant and did not fail, so its future
+                            // completed with `Ok` and its output was written to `output[j]`.
+                            unsafe { out.assume_init_drop() };
+                        } else {
+                            this.queue.tasks.remove(j);
+                        }
+                    }
+                    this.output = Vec::new().into_boxed_slice();
                     break Poll::Ready(Err(e));
                 }
                 Poll::Ready(None) => {
